@@ -296,8 +296,28 @@ fn run(tier: Tier, seed: u64) -> i32 {
     let n_random = tier.pick(300usize, 2500usize);
     for k in 0..n_random {
         let mut rng = root.child("grammar", k as u64);
-        let text = parsim_rt::gen::random_grammar(&mut rng).to_text();
-        all.push((format!("seeded random grammar #{k}"), text));
+        let mut m = parsim_rt::gen::random_grammar(&mut rng);
+        let mut label = format!("seeded random grammar #{k}");
+        if k % 4 == 3 {
+            // library-style variant: a one-token start rule is added and the former start rule and a seeded subset of the
+            // other rules become `part` entry points, so that rules are reachable through parts only and parts refer to parts
+            let mut r2 = root.child("library variant", k as u64);
+            if let Some(t) = m.tokens.iter().position(|t| !t.skipped) {
+                let old_start = m.start;
+                m.rules.push(parsim_rt::model::RuleM { name: "entry0".into(), elided: false, body: Some(parsim_rt::model::Rx::Tok(t)) });
+                m.start = m.rules.len() - 1;
+                let mut parts = vec![old_start];
+                for r in 0..m.rules.len() - 1 {
+                    if r != old_start && (m.parts.contains(&r) || r2.chance(1, 3)) {
+                        parts.push(r);
+                    }
+                }
+                parts.sort();
+                m.parts = parts;
+                label = format!("seeded random grammar #{k} (library-style: parts only)");
+            }
+        }
+        all.push((label, m.to_text()));
     }
     let probe_bin = build_probe();
     let mut verdicts = vcore::Verdicts::new(PROP);
@@ -311,6 +331,9 @@ fn run(tier: Tier, seed: u64) -> i32 {
 
     // ---- part 1c: same process, twice and in fresh threads --------------------------------------------------
     let mut base: Vec<(String, String, probe::Digest, String)> = vec![];
+    // one text buffer recycled for every grammar: the text of each grammar then lives at the address the previous
+    // grammar's text had (what a long-running caller - build script over several grammars, the language server - does)
+    let mut recycled = String::with_capacity(all.iter().map(|(_, t)| t.len()).max().unwrap_or(0) + 1);
     for (gi, (name, text)) in all.iter().enumerate() {
         let sc = PathBuf::from(format!("{SCRATCH}/inproc/{}/{gi}", std::process::id()));
         let rel = "g.llw";
@@ -320,6 +343,16 @@ fn run(tier: Tier, seed: u64) -> i32 {
         evaluations += 2;
         if d2.full_text() != t1 {
             report(&mut verdicts, format!("C15.rerun.same_process_differs:{}", diff_section(&t1, &d2.full_text())), first_diff(&t1, &d2.full_text()), name, text, json!("twice in one thread"));
+        }
+        // after every other grammar compiled by this thread so far, from the recycled buffer
+        recycled.clear();
+        recycled.push_str(text);
+        if let Ok(d4) = std::panic::catch_unwind(|| probe::analyse(&recycled, rel, Some(&sc))) {
+            evaluations += 1;
+            *counts.entry("runs_after_other_grammars_recycled_buffer").or_default() += 1;
+            if d4.full_text() != t1 {
+                report(&mut verdicts, format!("C15.rerun.depends_on_earlier_compilations:{}", diff_section(&t1, &d4.full_text())), first_diff(&t1, &d4.full_text()), name, text, json!("same thread, text in a buffer that held the previous grammar"));
+            }
         }
         let (tx, sc2) = (text.clone(), sc.clone());
         let t3 = std::thread::spawn(move || std::panic::catch_unwind(|| probe::analyse(&tx, "g.llw", Some(&sc2)).full_text()).unwrap_or_default()).join().unwrap_or_default();
